@@ -296,6 +296,12 @@ func (c12) Run(c *fw.Ctx) {
 				sel = -2
 			}
 			from, until, now, wk := pickWindow(l)
+			if from < 0 {
+				from = 0 // (a clock only a few steps above the retention: window arithmetic may go below the epoch)
+			}
+			if until < 0 {
+				until = 0
+			}
 			escaped := strings.ContainsAny(rel, " +%&#ü")
 			switch r.Intn(9) {
 			case 0, 1, 2, 3:
